@@ -27,7 +27,7 @@ RULE = ('Histories of 1..5 operations on one FitInfo: keep(sel) with the six sel
 ASSUMPTIONS = ['FitInfo.sort order (numpy argsort, NaN last) is taken as the ranking', 'selector thresholds equal to an attained value are not judged',
                "('A', v) is used with an arbitrary v, as in the documentation"]
 PROBES = ['tie_in_chi2', 'nan_present', 'inf_present', 'zero_length_result', 'kept_zero', 'kept_all', 'kept_some', 'equal_threshold_skipped',
-          'hop_pickle', 'hop_file', 'hop_consumer', 'family_real', 'composition_checked', 'n_beyond_total', 'flags_edited_in_place', 'rejected_flag_assignment']
+          'hop_pickle', 'hop_file', 'hop_consumer', 'family_real', 'composition_checked', 'n_beyond_total', 'flags_edited_in_place', 'rejected_flag_assignment', 'hop_file_pair']
 
 
 def budgets(tier):
@@ -70,8 +70,12 @@ def generate(rng, tier, idx):
         sc['with_fluxes'] = rng.random() < 0.5
     steps = []
     for _ in range(rng.randint(1, 5)):
-        op = rng.choice(['keep', 'keep', 'keep', 'keep', 'pickle', 'file', 'flags', 'bad_assign'] + (['consumer'] if real else []))
+        op = rng.choice(['keep', 'keep', 'keep', 'keep', 'pickle', 'file', 'file_pair', 'flags', 'bad_assign'] + (['consumer'] if real else []))
         st = {'op': op}
+        if op == 'file_pair':
+            # the result is written twice into ONE open file, its Source edited in place between the two writes
+            st['k'] = rng.randrange(12)
+            st['v'] = rng.choice([0, 1, 2, 3, 4, 9])
         if op == 'flags':
             # the user edits the flags of the result's Source IN PLACE between two selections
             st['k'] = rng.randrange(12)
@@ -284,6 +288,35 @@ def _execute(sc, sim, out):
             trace.append((op,))
             if not check(i, 'file hop'):
                 break
+        elif op == 'file_pair':
+            import copy as _copy
+            f = pipe.FitInfoFile(path, 'w')
+            r = pipe.call(f.write, _copy.copy(info) if False else info)
+            v_ = np.asarray(info.source.valid)
+            kk = st['k'] % len(v_)
+            trial = v_.copy()
+            trial[kk] = st['v']
+            if n_data_of(trial) >= 1:
+                info.source.valid[kk] = st['v']
+                nd = n_data_of(info.source.valid)
+            if r[0] == 'ok':
+                r = pipe.call(f.write, info)
+            pipe.call(f.close)
+            if r[0] == 'ok':
+                r = pipe.call(pipe.read_fit_sed, path)
+            if r[0] != 'ok' or len(r[1]) != 2:
+                out.violate('selection', 'two-record file hop failed: %s' % (pipe.exc_name(r) or 'record count %d' % len(r[1])), key='filehop2')
+                break
+            want_flags = [int(x) for x in info.source.valid]
+            info = r[1][1]
+            out.probe('hop_file_pair')
+            trace.append((op,))
+            if [int(x) for x in info.source.valid] != want_flags:
+                out.violate('selection', 'second record of a file reads back with flags %s, written with %s (same Source object as the first record, edited in between)' % (
+                    [int(x) for x in info.source.valid], want_flags), key='filehop2')
+                break
+            if not check(i, 'two-record file hop'):
+                break
         elif op == 'consumer':
             # the analyst's view: write_parameters on the file with its own selector; the object is not touched
             sel = tuple(st['sel'])
@@ -313,7 +346,7 @@ def _execute(sc, sim, out):
                     sel, L[:1] + L[1:][:3], want, nd), key='consumer')
                 break
             trace.append((op, sel[0], 0 if want == 0 else (1 if want == k else 2)))
-    if not out.violations and counts_on_original and not any(st['op'] in ('flags', 'bad_assign') for st in sc['steps']):
+    if not out.violations and counts_on_original and not any(st['op'] in ('flags', 'bad_assign', 'file_pair') for st in sc['steps']):
         # composition: the end state equals one selection with the tightest selector evaluated on the original
         out.compared('composition')
         out.probe('composition_checked')
@@ -343,5 +376,5 @@ def lowerings(sc, viol=None):
                 w2['asc_per_file'] = w2['asc_per_file'][:2]
             yield dict(sc, world=w2)
     for i, st in enumerate(sc['steps']):
-        if st['op'] in ('pickle', 'file'):
+        if st['op'] in ('pickle', 'file', 'file_pair'):
             yield dict(sc, steps=sc['steps'][:i] + sc['steps'][i + 1:])
